@@ -8,8 +8,8 @@ from props import rt
 PID = "C03"
 LEVEL = "proof"
 MODULE = "Sigc.Props.C03"
-EXTRA_MODULES = ("Sigc.Props.Refine", "Sigc.Props.Fuel", "Sigc.Props.SpecK", "Sigc.Props.SpecProps",)   # refinement P ⊑ S', S' ≡ S on runs clear of the known findings, the statements read off S
-REQUIRED = ["Sigc.C03.safe", "Sigc.C03.safe_inside", "Sigc.C03.frame", "Sigc.C03.frame_spelled_out", "Sigc.C03.emit_restores_exec", "Sigc.C03.quiescent_clean", "Sigc.C03.inv_reachable", "Sigc.C03.owned_not_pinned", "Sigc.Fuel.terminates", "Sigc.Fuel.runProgram_fuel_independent", "Sigc.Refine.refines", "Sigc.Refine.runProgram_refines", "Sigc.SpecK.model_refines_pure_spec"]
+EXTRA_MODULES = ("Sigc.Props.Refine", "Sigc.Props.Fuel", "Sigc.Props.SpecK", "Sigc.Props.SpecProps", "Sigc.Props.SweepL",)   # refinement P ⊑ S', S' ≡ S on runs clear of the known findings, the statements read off S
+REQUIRED = ["Sigc.SweepL.quiescent_clean", "Sigc.SweepL.size_spec", "Sigc.SweepL.no_fuel_error", "Sigc.SweepL.owner_gone_releases", "Sigc.SweepL.nothing_erased_while_executing", "Sigc.SweepL.inv_reachable", "Sigc.C03.safe", "Sigc.C03.safe_inside", "Sigc.C03.frame", "Sigc.C03.frame_spelled_out", "Sigc.C03.emit_restores_exec", "Sigc.C03.quiescent_clean", "Sigc.C03.inv_reachable", "Sigc.C03.owned_not_pinned", "Sigc.Fuel.terminates", "Sigc.Fuel.runProgram_fuel_independent", "Sigc.Refine.refines", "Sigc.Refine.runProgram_refines", "Sigc.SpecK.model_refines_pure_spec"]
 TRUSTED = rt.TRUSTED_RT
 ASSUMPTIONS = rt.ASSUMPTIONS_RT + []
 PARTIAL = []
@@ -28,7 +28,8 @@ def profiles(thorough):
 
 
 def correspondence(ctx):
-    return rt.run(ctx, sys.modules[__name__])
+    # + one slot list with exact destruction timing: owner functors x connected empty slots (docs/SWEEPL.md)
+    return rt.add_sweepl_stage(ctx, rt.run(ctx, sys.modules[__name__]), 'C03')
 
 
 def search(ctx, disagreements):
